@@ -157,6 +157,11 @@ def check_sim_calls(ctx, rc, tags, sl, r1d, kind, n_expected, hostile):
                 ctx.violate("simulated catalog does not contain the prescribed number of events", rc,
                             observed={"sum": float(res.sum()), "requested": e["n"], "draws": int(u.size)}, expected=n_prescribed, tags=dict(tags, clause="count"))
         else:
+            if e["injected"] is not None and numpy.unique(bins).size < bins.size:
+                # injected numbers that hit one cell twice on the weights the library actually used (possible when the table's precision differs
+                # from the harness' anticipation): the injection point has event semantics there, outside the clause (DESIGN section 4)
+                ctx.add("skipped_injected_rows_hitting_one_cell_twice")
+                continue
             # rejection sampling: first n distinct bins visited; loop stops as soon as they are collected
             n = e["n"]
             want = numpy.zeros(W.size)
@@ -232,6 +237,10 @@ def ex_case(ctx, case, test="CL", num_sim=3, source="seed", seed=1, layout="C", 
     fn, mod = {"L": (pe.likelihood_test, pe), "CL": (pe.conditional_likelihood_test, pe), "S": (pe.spatial_test, pe), "M": (pe.magnitude_test, pe),
                "BS": (be.binary_spatial_test, be), "BCL": (be.binary_conditional_likelihood_test, be), "BR": (br.brier_score_test, br)}[test]
     kind = "poisson" if poisson else ("brier" if test == "BR" else "binary")
+    if layout == "f32" and not poisson and source == "hostile":
+        # in single precision a cell whose probability is below the float32 resolution has zero width in the cumulative weights: "every positive-rate
+        # bin is visited by the schedule" (the premise of the termination clause) cannot be guaranteed by the harness there
+        source = "seed"
     tags = {"test": test, "source": source, "has_zero_rate": bool((r1d == 0).any()), "seed_zero": seed == 0, "kind": kind, "layout": layout, "scaled": scale is not None}
     if not poisson and not _feasible_binary(r1d, n_active):
         ctx.add("skipped_infeasible_rejection_cases")
